@@ -320,7 +320,10 @@ def parallel_run_cases(exe, cases, workdir, tag, shards=16, timeout=900):
     n = len(cases)
     if n == 0:
         return 0, [], ''
-    shards = max(1, min(shards, n // 200 + 1))
+    # long case lines (whole histories) deserve their own shard even when there are few of them
+    avg = sum(len(c) for c in cases[:50]) / min(n, 50)
+    per = 200 if avg < 2000 else 4
+    shards = max(1, min(shards, n // per + 1))
     size = (n + shards - 1) // shards
     procs = []
     e = dict(os.environ)
